@@ -38,7 +38,7 @@ MCInit == Init /\ hist = <<>>
 
 MCNext ==
     \/ \E c \in Configs, w0 \in {1} :
-          /\ TrajInit(c, w0)
+          /\ TrajInit(c, w0, 0)
           /\ hist' = <<[e |-> "init", mind |-> c.mind, maxd |-> c.maxd,
                         extra |-> c.extra, check |-> c.check, dim |-> c.dim]>>
     \/ \E d \in {1, -1} :
@@ -46,7 +46,7 @@ MCNext ==
           /\ hist' = Append(hist, [e |-> "dir", d |-> d])
     \/ \E k \in Kinds, w \in Weights :
           /\ (k # "ok" => w = 1)
-          /\ Leap(k, w)
+          /\ Leap(k, w, LeapStart + dir)
           /\ hist' = Append(hist, [e |-> "leap", start |-> LeapStart, d |-> dir,
                                    res |-> k, w |-> w])
     \/ \E b \in BOOLEAN :
@@ -63,6 +63,8 @@ MCNext ==
                                    depth |-> Top.self.depth,
                                    lo |-> MergedLo, hi |-> MergedHi,
                                    draw |-> Merged(acc).draw])
+          \* the identity carried with the draw is the draw
+          /\ Merged(acc).tag = Merged(acc).draw
     \/ \E why \in {"turn", "div"} :
           /\ phase = "unwind"
           /\ SubRej(why, Top.self.depth)
